@@ -65,6 +65,9 @@ def run(ctx):
                    "reaches the export side", min_sites=5)
     ctx.rule("E4", "memory images: endianness table {little:'<I', big:'>I'}, zero padding to bytes_per_data, index "
                    "(base-offset)//bytes_per_data + i, 32-bit sub-words placed at their byte offset", min_sites=5)
+    ctx.rule("E6", "CSR memory window (csr_bus.SRAM): the sub-word written at index i lands in the chunk of the memory word that the "
+                   "read-side chooser returns for index i (writer's and reader's order agree); last sub-word triggers the write; "
+                   "memory address = bus address above the sub-word bits", min_sites=6)
     ctx.rule("E5", "generated multi-word accessors: read and write use the same address expression per word and the same "
                    "MSW-first order", min_sites=4)
 
@@ -288,3 +291,111 @@ def run(ctx):
     st = ex.func("_determine_ctype_and_stride_c")
     ok = any(isinstance(n, ast.Assign) and norm(n.targets[0]) == "stride" and norm(n.value) == "alignment // 8" for n in ast.walk(st))
     ctx.ob("E5", EXP, "_determine_ctype_and_stride_c", "stride = alignment // 8", ok, "" if ok else "stride changed", st)
+
+    # ============================================================ E6
+    _e6(ctx)
+
+
+def _seq(node, env, lists):
+    """Order-abstract value of a list expression: [('one', text) | ('asc', L) | ('desc', L)], None if not understood."""
+    if isinstance(node, ast.Name):
+        if node.id in lists:
+            return [("asc", node.id)]
+        if node.id in env:
+            return _seq(env[node.id], env, lists)
+        return None
+    if isinstance(node, (ast.List, ast.Tuple)):
+        out = []
+        for e in node.elts:
+            if isinstance(e, ast.Starred):
+                v = _seq(e.value, env, lists)
+                if v is None:
+                    return None
+                out += v
+            else:
+                out.append(("one", norm(e)))
+        return out
+    if isinstance(node, ast.BinOp) and isinstance(node.op, ast.Add):
+        a, b = _seq(node.left, env, lists), _seq(node.right, env, lists)
+        return None if a is None or b is None else a + b
+    if isinstance(node, ast.Call) and isinstance(node.func, ast.Name) and len(node.args) == 1 and not node.keywords:
+        v = _seq(node.args[0], env, lists)
+        if v is None:
+            return None
+        if node.func.id in ("list", "tuple"):
+            return v
+        if node.func.id == "reversed":
+            return [(dict(asc="desc", desc="asc", one="one")[k], x) for k, x in reversed(v)]
+    if isinstance(node, ast.Subscript) and norm(node.slice) == "::-1":
+        v = _seq(node.value, env, lists)
+        return None if v is None else [(dict(asc="desc", desc="asc", one="one")[k], x) for k, x in reversed(v)]
+    return None
+
+
+def _e6(ctx):
+    m = ctx.mod(CSRBUS)
+    init = m.method("SRAM", "__init__")
+    ctx.analysed["functions"].add(f"{CSRBUS}::SRAM.__init__")
+    # ---- reader
+    ch = [n for n in ast.walk(init) if isinstance(n, ast.Call) and norm(n.func) == "chooser"]
+    ctx.need(len(ch) == 1, "E6: csr_bus.SRAM no longer reads multi-word memories through one chooser() call")
+    kw = {k.arg: k.value for k in ch[0].keywords}
+    args = [norm(a) for a in ch[0].args]
+    try:
+        rev = bool(const_fold(kw["reverse"])) if "reverse" in kw else False
+    except ValueError:
+        ctx.need(False, "E6: chooser(reverse=...) is not a literal")
+    ok = args[:3] == ["word_expanded", "word_index", "self.bus.dat_r"] and norm(kw.get("n", ast.Constant(value=None))) == "csrw_per_memw"
+    ctx.ob("E6", CSRBUS, "SRAM", "read: chooser(memory word, registered sub-word index, bus.dat_r, n=sub-words)", ok,
+           "" if ok else f"chooser({args}, {[(k, norm(v)) for k, v in kw.items()]})", ch[0])
+    env = {}
+    for n in ast.walk(init):
+        if isinstance(n, ast.Assign) and len(n.targets) == 1 and isinstance(n.targets[0], ast.Name):
+            env.setdefault(n.targets[0].id, []).append(n.value)
+    env1 = {k: v[0] for k, v in env.items() if len(v) == 1}
+    eqs = {}
+    for n in ast.walk(init):
+        if isinstance(n, ast.Call) and isinstance(n.func, ast.Attribute) and n.func.attr == "eq" and len(n.args) == 1:
+            eqs.setdefault(norm(n.func.value), []).append(n.args[0])
+    ok = [norm(x) for x in eqs.get("word_index", [])] == ["self.bus.adr[:word_bits]"] and \
+        [norm(x) for x in eqs.get("word_expanded", [])] == ["port.dat_r"]
+    ctx.ob("E6", CSRBUS, "SRAM", "read: sub-word index = bus.adr[:word_bits] (registered with the memory's latency), word = port.dat_r", ok,
+           "" if ok else f"word_index <- {[norm(x) for x in eqs.get('word_index', [])]}, word_expanded <- {[norm(x) for x in eqs.get('word_expanded', [])]}", init)
+    # ---- writer
+    loops = [n for n in ast.walk(init) if isinstance(n, ast.For) and norm(n.iter) in ("range(csrw_per_memw - 1)", "range(0, csrw_per_memw - 1)")]
+    ctx.need(len(loops) == 1 and isinstance(loops[0].target, ast.Name), "E6: csr_bus.SRAM write path: loop over the csrw_per_memw-1 latched sub-words not found")
+    lp = loops[0]
+    iv = lp.target.id
+    app = [n for n in ast.walk(lp) if isinstance(n, ast.Call) and isinstance(n.func, ast.Attribute) and n.func.attr == "append" and
+           isinstance(n.func.value, ast.Name) and len(n.args) == 1 and isinstance(n.args[0], ast.Name)]
+    ctx.need(len(app) == 1, "E6: latched sub-words are not collected with one list.append in the loop")
+    L, reg = app[0].func.value.id, app[0].args[0].id
+    latch = [n for n in ast.walk(lp) if isinstance(n, ast.Call) and norm(n.func) == "If" and
+             any(isinstance(a, ast.Call) and norm(a.func) == f"{reg}.eq" and norm(a.args[0]) == "self.bus.dat_w" for a in n.args[1:])]
+    def conj(e):
+        if isinstance(e, ast.BinOp) and isinstance(e.op, ast.BitAnd):
+            return conj(e.left) + conj(e.right)
+        if isinstance(e, ast.Name) and isinstance(env1.get(e.id), (ast.BinOp, ast.Compare)):     # a named sub-condition
+            return conj(env1[e.id])
+        return [norm(e)]
+    ok = len(latch) == 1 and sorted(conj(latch[0].args[0])) == sorted(["sel", "self.bus.we", f"self.bus.adr[:word_bits] == {iv}"])
+    ctx.ob("E6", CSRBUS, "SRAM", f"write: sub-word i is latched from bus.dat_w when selected, we and adr[:word_bits] == i", ok,
+           "" if ok else f"{[norm(x.args[0]) for x in latch]}", lp)
+    dw = [x for x in eqs.get("port.dat_w", []) if isinstance(x, ast.Call) and norm(x.func) == "Cat"]
+    ctx.need(len(dw) == 1, "E6: port.dat_w is not driven from one Cat(...) of sub-words")
+    seq = _seq(ast.List(elts=list(dw[0].args)), env1, {L})
+    ctx.need(seq is not None, f"E6: cannot derive the chunk order of `{norm(dw[0])}`")
+    # chunk k (from the LSB) of the written memory word; reader returns chunk n-1-j (reverse) or j for sub-word index j
+    big = seq == [("one", "self.bus.dat_w"), ("desc", L)]
+    little = seq == [("asc", L), ("one", "self.bus.dat_w")]
+    ok = (big and rev) or (little and not rev)
+    ctx.ob("E6", CSRBUS, "SRAM", "write chunk order = read chunk order", ok,
+           "" if ok else f"written word = Cat{seq} (LSB first; {L}[i] is the sub-word written at index i, bus.dat_w the last one, index n-1) but the "
+                         f"reader returns chunk {'n-1-j' if rev else 'j'} for index j: sub-words come back permuted", dw[0])
+    we = [norm(x) for x in eqs.get("port.we", [])]
+    ok = any(sorted(conj(x)) == sorted(["sel", "self.bus.we", "self.bus.adr[:word_bits] == csrw_per_memw - 1"]) for x in eqs.get("port.we", []))
+    ctx.ob("E6", CSRBUS, "SRAM", "write: the memory word is written with the last sub-word (index n-1)", ok, "" if ok else f"port.we <- {we}", init)
+    ad = [norm(x) for x in eqs.get("port.adr", [])]
+    ok = len(ad) == 2 and all(x.startswith("self.bus.adr[word_bits:word_bits + len(port.adr)") or
+                              x.startswith("Cat(self.bus.adr[word_bits:word_bits + len(port.adr)") for x in ad)
+    ctx.ob("E6", CSRBUS, "SRAM", "memory address = bus.adr[word_bits:...] (sub-word bits stripped)", ok, "" if ok else f"port.adr <- {ad}", init)
